@@ -75,7 +75,8 @@ pub fn eval(toks: Vec<Tok>) -> Vec<Tok> {
 /// The rules at the real listener (`Core::listen` on a loopback port): the peer is 127.0.0.1, the client random is the one
 /// of the ClientHello the TLS client really sent (read off the wire).
 /// in : [nrules, upper_hex, proto (1 = TLS, 3 = QUIC)] then the rule tokens of c04_eval
-/// out: [996] | three times: [admitted (the handshake completed and a health-check request was answered)] client-random (TLS only)
+/// out: [996] | three times: [admitted (the handshake completed and a health-check request was answered)] client-random (TLS only),
+///      then once more with the ClientHello spread over two TLS records: [admitted] -   ([9] - for QUIC)
 pub fn front(toks: Vec<Tok>) -> Vec<Tok> {
     use std::time::Duration;
     let quic = toks[0].get(2).copied().unwrap_or(1) == 3;
@@ -109,13 +110,15 @@ pub fn front(toks: Vec<Tok>) -> Vec<Tok> {
                 }
                 c.close();
             }
-            return vec![vec![ok], vec![], vec![ok], vec![], vec![ok], vec![]];
+            return vec![vec![ok], vec![], vec![ok], vec![], vec![ok], vec![], vec![9], vec![]];
         }
         use tokio::io::{AsyncReadExt, AsyncWriteExt};
         // three connections, each with the random its ClientHello happens to carry
         let mut out = vec![];
-        for _ in 0..3 {
-            let (tls, wire) = crate::front::tls_connect_tap(ep.addr, "localhost", &[b"http/1.1"]).await;
+        // the fourth one sends its ClientHello spread over two TLS records: the listener cannot read the random
+        // ahead of the handshake then (reported as an empty random), although the handshake itself is fine
+        for attempt in 0..4 {
+            let (tls, wire) = crate::front::tls_connect_tap_opt(ep.addr, "localhost", &[b"http/1.1"], attempt == 3).await;
             let mut ok = 0u128;
             if let Some(mut s) = tls {
                 let _ = s.write_all(b"CONNECT _check HTTP/1.1\r\nHost: x\r\n\r\n").await;
@@ -131,7 +134,7 @@ pub fn front(toks: Vec<Tok>) -> Vec<Tok> {
             }
             let wire = wire.lock().unwrap().clone();
             // record header (5) + handshake header (4) + version (2), then the 32 bytes of the random
-            let random = if wire.len() >= 43 && wire[0] == 0x16 && wire[5] == 1 { wire[11..43].to_vec() } else { vec![] };
+            let random = if attempt < 3 && wire.len() >= 43 && wire[0] == 0x16 && wire[5] == 1 { wire[11..43].to_vec() } else { vec![] };
             out.push(vec![ok]);
             out.push(tok(&random));
         }
